@@ -115,10 +115,14 @@ def run(ctx, pid, bdir=None):
                                   "%s (%s) is not adjusted: %s" % (f, a, (o["run"].out + o["run"].err).strip()[-160:])
                             replay["gkf"] = txt
                             break
-                        cur = (gama.adjusted_map(o["res"]), o["res"]["equations"])
+                        cur = (gama.adjusted_map(o["res"]), o["res"]["equations"], o["res"])
                         if ref is None:
                             ref = cur
                             continue
+                        if case.get("full"):
+                            dd = enet.compare_results(ref[2], cur[2], ctol=case.get("ctol", 1e-4), rtol=case.get("ctol", 1e-4))
+                            if dd:
+                                why = "%s (%s) differs from %s: %s" % (f, a, case["files"][0], dd[0]); replay["gkf"] = txt; break
                         if cur[1] != ref[1] and not case.get("ignore_equations"):
                             why = "%s (%s): %d equations, %s: %d" % (f, a, cur[1], case["files"][0], ref[1]); replay["gkf"] = txt; break
                         if set(cur[0]) != set(ref[0]):
@@ -181,6 +185,35 @@ def run(ctx, pid, bdir=None):
                                 line = int(m.group(1)) if m else None
                             if line is None or line < case.get("line", 1):
                                 why = "refused without naming a line of the input (line %s): %s" % (line, txt.strip()[-200:])
+            elif kind == "deterministic":
+                # the same command line with the heap filled by different bytes (glibc MALLOC_PERTURB_): reading memory that was
+                # never written shows up as different results
+                plain = vlib.build_repo(sanitize=False)
+                tool = case.get("tool", "gama-local")
+                outs = []
+                for pert in ("0", "85", "170"):
+                    args = []
+                    for x in case["args"]:
+                        if x.startswith("@"):
+                            dst = os.path.join(ctx.scratch, "dir_" + case["id"] + "_" + x[1:])
+                            shutil.copyfile(os.path.join(DIR, x[1:]), dst)
+                            args.append(dst)
+                        elif x.startswith("%"):
+                            args.append(os.path.join(ctx.scratch, "dir_" + case["id"] + "_" + pert + "_" + x[1:]))
+                        else:
+                            args.append(x)
+                    p_ = subprocess.run([os.path.join(plain, tool)] + args, capture_output=True, timeout=120, cwd=ctx.scratch,
+                                        env=dict(os.environ, MALLOC_PERTURB_=pert), stdin=subprocess.DEVNULL)
+                    txt = p_.stdout.decode("latin-1")
+                    for a in args:
+                        if a.endswith(".txt") and os.path.exists(a):
+                            txt += open(a, encoding="latin-1").read()
+                    outs.append(txt)
+                replay["cmd"] = tool + " " + " ".join(case["args"])
+                if len(set(outs)) != 1:
+                    a_, b_ = outs[0].splitlines(), [o for o in outs if o != outs[0]][0].splitlines()
+                    diff = [(x, y) for x, y in zip(a_, b_) if x != y][:2]
+                    why = "the results depend on the contents of uninitialised memory (MALLOC_PERTURB_ 0 / 85 / 170): %s" % diff
             elif kind in ("g3", "g3_same"):
                 ref = None
                 for a in case.get("algs", ["envelope", "gso", "svd", "cholesky"]):
@@ -233,7 +266,7 @@ def run(ctx, pid, bdir=None):
         except Exception as e:      # a broken case file must not pass silently
             why = "directed case could not be run: %r" % e
         if why:
-            bad += 1
-            ctx.violation(replay, "directed case %s (%s): %s" % (case["id"], case.get("what", ""), why))
+            bad += 0 if case.get("key") else 1
+            ctx.violation(replay, "directed case %s (%s): %s" % (case["id"], case.get("what", ""), why), key=case.get("key"))
     ctx.obligation(bad == 0, "directed cases of %s (%d)" % (pid, len(cases)))
     return bad
